@@ -32,7 +32,7 @@ class LivelockDetected(BaseException):
     pass
 
 
-class WatchdogTimeout(BaseException):
+class WatchdogTimeout(KeyboardInterrupt):      # asyncio lets KeyboardInterrupt through tasks and handles; other BaseExceptions become task results
     pass
 
 
@@ -440,6 +440,9 @@ class Obs:
                      sorted(self.flags.items()), self.tasks_left, self.end_reason))
 
 
+_WATCHDOG_HITS = 0
+
+
 class Session:
     """One deterministic execution.
 
@@ -493,6 +496,10 @@ class Session:
             raise RuntimeError("receive callback failed (injected)")
         if m == "slow":
             await asyncio.sleep(0.05)
+        if m == "send":
+            # the application answers from inside the callback (calls back into the client)
+            from . import clientkit
+            await self.client.send(clientkit.heading_message(90 + n % 8))
 
     async def _status_cb(self, state):
         n = self.status_count
@@ -525,8 +532,12 @@ class Session:
 
         def on_alarm(signum, frame):
             raise WatchdogTimeout()
+        global _WATCHDOG_HITS
         signal.signal(signal.SIGALRM, on_alarm)
-        signal.setitimer(signal.ITIMER_REAL, WATCHDOG_S)
+        # a worker that has already seen an execution hang gives later ones 3 s instead of 20 s (a healthy execution takes
+        # milliseconds); after four hangs it stops executing and marks the rest as skipped, so that a tree on which
+        # every execution hangs is reported in minutes, not hours (mc/run.py drops the skipped ones from the report)
+        signal.setitimer(signal.ITIMER_REAL, WATCHDOG_S if _WATCHDOG_HITS == 0 else 3.0)
         self.loop = install_loop()
         self.gw = FakeGateway(self.loop)
         patch_factories(self.gw)
@@ -534,8 +545,14 @@ class Session:
             self.setup(self.gw)
         self.loop.set_exception_handler(self._on_exc)
         try:
-            self._drive()
+            if _WATCHDOG_HITS >= 4:
+                self.client = make_client(self.kind, **self.client_kw)
+                self.obs.flags["skipped_after_hangs"] = True
+                self.obs.end_reason = "skipped_after_hangs"
+            else:
+                self._drive()
         except WatchdogTimeout:
+            _WATCHDOG_HITS += 1
             self.obs.flags["watchdog"] = True
             self.obs.end_reason = "watchdog"
         finally:
@@ -881,6 +898,9 @@ def sp_close(sess):
         sess.obs.marks["close_entered_t"] = sess.loop.time()
         sess.obs.marks["attempts_at_close"] = len(sess.gw.attempts)
         await sess.client.close()
+        # what is still open at the moment this close() call returns (a close() that returns early leaves the link up)
+        sess.obs.marks.setdefault("open_at_close_return", []).append(
+            [c.cid for c in sess.gw.conns if not (c.closed_by_client or c.lost or c.reset or c.eof_sent)])
         sess.close_returned = True
         sess.obs.marks["close_returned_t"] = sess.loop.time()
         sess.obs.marks["received_at_close_return"] = len(sess.obs.received)
